@@ -2,7 +2,8 @@
 From Coq Require Import NArith List.
 From MZ.lib Require Import Arr Mach.
 From MZ.model Require Import InflateCore.
-From MZ.proofs Require Import InflateBasic InflateFrame3.
+From MZ.proofs Require Import InflateBasic InflateFrame3 InflateStreamProgress.
+From Coq Require Import List.
 Local Open Scope N_scope.
 
 (* Every normal return of decompress_with_limit, for every decoder value, input, output slice,
@@ -28,6 +29,15 @@ Theorem C08_bad_geometry_untouched :
   decompress r input o out_pos out_max flags
   = Ret {| cr_status := BadParam; cr_in := 0; cr_out := 0; cr_buf := o; cr_dec := r |}.
 Proof. exact decompress_bad_geometry. Qed.
+
+(* ... "so a driver loop always makes progress": a call given some input and some output room that asks to be called
+   again (NeedsMoreInput / HasMoreOutput) has consumed at least one byte, resp. written at least one byte *)
+Theorem C08_driver_loop_progress :
+  forall r input o out_pos out_max flags res,
+  alen o <= USIZE_MAX -> decompress r input o out_pos out_max flags = Ret res ->
+  input <> nil -> 0 < N.min out_max (alen o - out_pos) ->
+  (cr_status res = NeedsMoreInput -> 0 < cr_in res) /\ (cr_status res = HasMoreOutput -> 0 < cr_out res).
+Proof. exact decompress_progress. Qed.
 
 (* non-vacuity: a call that returns HasMoreOutput with a 3-byte budget inside a larger buffer *)
 Example C08_budget_example :
